@@ -970,6 +970,15 @@ func (g *ArtGen) layoutTable() {
 // ---------------------------------------------------------------------------
 // blocks
 
+// nestNoise is noise() for list items, quotes and pre: now and then the
+// element is displayed inline (a common way to style lists).
+func (g *ArtGen) nestNoise() string {
+	if g.P.Wrappers && g.r.Chance(1, 8) {
+		return []string{` style="display:inline"`, ` style="display: inline;"`, ` style="DISPLAY:INLINE !important"`, ` style="color:red;display:inline"`}[g.r.Intn(4)]
+	}
+	return g.noise()
+}
+
 func (g *ArtGen) list() {
 	g.L.Kinds["list"]++
 	tag := []string{"ul", "ol"}[g.r.Intn(2)]
@@ -977,7 +986,7 @@ func (g *ArtGen) list() {
 	g.push("li")
 	n := 1 + g.r.Intn(5)
 	for i := 0; i < n; i++ {
-		g.w("<li" + g.noise() + ">")
+		g.w("<li" + g.nestNoise() + ">")
 		switch g.r.Intn(5) {
 		case 0:
 			g.paragraph(g.paraLen())
@@ -994,6 +1003,10 @@ func (g *ArtGen) list() {
 			g.depth++
 			g.block()
 			g.depth--
+		} else if g.P.Wrappers && g.r.Chance(1, 12) {
+			// the other list containers of HTML
+			t := []string{"menu", "menu", "dir"}[g.r.Intn(3)]
+			g.w("<" + t + "><li>" + g.toks(4+g.r.Intn(25)) + "</li><li>" + g.toks(4+g.r.Intn(25)) + "</li></" + t + ">")
 		}
 		g.w("</li>")
 	}
@@ -1057,7 +1070,7 @@ func (g *ArtGen) block() {
 		{3, p.Lists, g.list},
 		{2, p.Quotes && g.depth < 3, func() {
 			g.L.Kinds["blockquote"]++
-			g.w("<blockquote" + g.noise() + ">")
+			g.w("<blockquote" + g.nestNoise() + ">")
 			g.push("blockquote")
 			g.depth++
 			g.block()
@@ -1070,7 +1083,7 @@ func (g *ArtGen) block() {
 		}},
 		{2, p.Pre, func() {
 			g.L.Kinds["pre"]++
-			g.w("<pre" + g.noise() + ">" + g.toks(3+g.r.Intn(15)) + "\n  " + g.toks(2+g.r.Intn(15)) + "</pre>\n")
+			g.w("<pre" + g.nestNoise() + ">" + g.toks(3+g.r.Intn(15)) + "\n  " + g.toks(2+g.r.Intn(15)) + "</pre>\n")
 		}},
 		{4, p.Images || p.Figures || p.Videos || p.Embeds || p.Twitter, func() { g.media(false) }},
 		{2, p.DataTables && g.curTab < 0, g.dataTable},
